@@ -225,6 +225,36 @@ class Replayer:
                 q.append((dst, r + [(n, label, dst)]))
         return None
 
+    def run_behaviour(self, behaviour):
+        """Replay one `-simulate file=` behaviour: [(action label, state dict)] with the initial state first."""
+        self.paths += 1
+        self.ad.fresh()
+        got = self.ad.project()
+        exp = self.ad.abstract(behaviour[0][1])
+        path = []
+        if got != exp:
+            self._record(Divergence("init", "", {self.field_namer(x) for x in diff_fields(exp, got)}, [], exp, got))
+            return
+        for label, state in behaviour[1:]:
+            name, args = tlaval.split_call(label)
+            self.steps += 1
+            refused_expected = name.endswith("Refused")
+            try:
+                accepted = self.ad.apply(name[: -len("Refused")] if refused_expected else name, args)
+            except Exception as ex:  # noqa
+                self._record(Divergence("exception", label, {type(ex).__name__}, path + [label], error=repr(ex)))
+                return
+            path.append(label)
+            if accepted == refused_expected:
+                self._record(Divergence("outcome", label,
+                                        {"accepted_but_spec_refuses" if accepted else "refused_but_spec_accepts"}, list(path)))
+                return
+            got = self.ad.project()
+            exp = self.ad.abstract(state)
+            if got != exp:
+                self._record(Divergence("state", label, {self.field_namer(x) for x in diff_fields(exp, got)}, list(path), exp, got))
+                return
+
     def random_walks(self, n, depth, rnd: random.Random):
         for _ in range(n):
             node = self.start()
